@@ -116,7 +116,6 @@ func (c *TreeCacheClientImpl) readStoreKeysMeta(ctx context.Context, store cache
 
 func (c *TreeCacheClientImpl) GetBranchesHighesPrecedence(ctx context.Context, path []string, filters ...CacheUpdateFilter) int32 {
 	result := int32(math.MaxInt32)
-	pathKey := strings.Join(path, KeysIndexSep)
 	c.intendedStoreIndexMutex.RLock()
 	if c.intendedStoreIndex == nil {
 		c.intendedStoreIndexMutex.RUnlock()
@@ -126,14 +125,30 @@ func (c *TreeCacheClientImpl) GetBranchesHighesPrecedence(ctx context.Context, p
 	defer c.intendedStoreIndexMutex.RUnlock()
 
 	// TODO: Improve this, since it is probably an expensive operation
-	for key, entries := range c.intendedStoreIndex {
-		if strings.HasPrefix(key, pathKey) {
-			if prio := entries.GetLowestPriorityValue(filters); prio < result {
-				result = prio
-			}
+	for _, entries := range c.intendedStoreIndex {
+		// the branch is matched per path element, the joined index key of a sibling
+		// can start with the joined key of the branch (e.g. "alpha" and "alphax")
+		if len(entries) == 0 || !pathSliceHasPrefix(entries[0].GetPath(), path) {
+			continue
+		}
+		if prio := entries.GetLowestPriorityValue(filters); prio < result {
+			result = prio
 		}
 	}
 	return result
+}
+
+// pathSliceHasPrefix returns true if the path elements start with all the prefix elements
+func pathSliceHasPrefix(path []string, prefix []string) bool {
+	if len(path) < len(prefix) {
+		return false
+	}
+	for i, elem := range prefix {
+		if path[i] != elem {
+			return false
+		}
+	}
+	return true
 }
 
 func (c *TreeCacheClientImpl) ReadCurrentUpdatesHighestPriorities(ctx context.Context, ccp PathSlices, count uint64) UpdateSlice {
